@@ -61,6 +61,28 @@ Theorem resize_adjoint : forall (m : pmode) (x y : list R) (off : Z),
 Proof. exact adjoint_all. Qed.
 Print Assumptions resize_adjoint.
 
+(* T1: the adjoint identity in the weighted inner products.  A uniformly discretized
+   domain and the range built from it carry the constant weighting w = cell volume
+   (equal on both sides by [range_covers_enlarged_domain] below), inner = w * <.,.>. *)
+Theorem resize_adjoint_weighted : forall (w : R) (m : pmode) (x y : list R) (off : Z),
+  offset_ok (length x) (length y) off = true ->
+  pad_legal m (length x) (length y) off = true ->
+  exists fx ay,
+    resize1 m Forward 0 true x (length y) off = Ok fx /\
+    resize1 m Adjoint 0 true y (length x) off = Ok ay /\
+    cdot w fx y = cdot w x ay.
+Proof. exact adjoint_weighted. Qed.
+Print Assumptions resize_adjoint_weighted.
+
+(* T1: constant padding with pad_const <> 0 is affine and its linear part (the
+   operator's derivative) is zero padding:  R_c(x + h) - R_c(x) = R_0(h). *)
+Theorem constant_padding_affine : forall (c : R) (x h : list R) (n_out : nat) (off : Z),
+  length x = length h ->
+  vsub (resize_ref PConstant c (vadd x h) n_out off) (resize_ref PConstant c x n_out off)
+  = resize_ref PConstant 0 h n_out off.
+Proof. exact const_affine. Qed.
+Print Assumptions constant_padding_affine.
+
 (* ---- N-d (flat C-order arrays).  [sep_loop m d c cast outer ishape oshape offs]
    applies the 1-d resize along axis 0, 1, ... ([Lib.Axis.along]); [sep_rev_loop]
    applies the 1-d maps of the way back in the opposite axis order.  Both are
